@@ -6,7 +6,9 @@ DIG = "0123456789"
 
 
 def rnd_digits(rng, n):
-    return "".join(rng.choice(DIG) for _ in range(n))
+    """n decimal digits; a quarter of the draws have leading / trailing zeros or a single repeated digit"""
+    from harness import gens
+    return gens.digits(rng, n) if rng.random() < 0.5 else "".join(rng.choice(DIG) for _ in range(n))
 
 
 def unmask(block, pan):
